@@ -484,6 +484,7 @@ def cov_scn(d, kind, plan, slots, inc=None, absent=False, wire=False, nflags=2):
 
 
 TWO = [[0, 7], [1, 7]]                      # two stations, same process id
+THREE = [[0, 7], [1, 7], [2, 7]]
 FOUR = [[0, 7], [1, 7], [2, 7], [0, 8]]     # three stations, one of them with two processes
 
 
@@ -543,8 +544,9 @@ def instances(tier):
     add("bv", ["S", "S", "A"], TWO, 1200, wire=True)
     add("iv", ["s", "W", "s", "W"], TWO, 600)            # whose "last reported value"?
     add("iv", ["s", "s", "W", "W"], TWO, 600)
-    # three stations, one of them with two processes
-    add("bv", ["s", "s", "S", "C"], FOUR, 2400)
+    # three stations; one station with two processes; both
+    add("bv", ["s", "s", "S", "C"], THREE, 1200)
+    add("bv", ["s", "S", "CAW"], [[0, 7], [0, 8]], 600)
     add("bv", ["s", "s", "s", "CW"], FOUR, 1200)
     # SubscribeCOV without the optional lifetime
     add("iv", ["S", "S", "A"], ONE, 600, absent=True)
